@@ -132,8 +132,34 @@ func CoerceBool(v Value) bool {
 			return false
 		}
 		return vc.Number() > 0
+	default:
+		if u, ok := underlying(v); ok {
+			return CoerceBool(u)
+		}
 	}
 	return false
+}
+
+// underlying returns a value of a defined type over a basic kind (type Status
+// int, type Name string, ...; also uintptr) as a value of the corresponding
+// predeclared type, which the coercions know.
+func underlying(v Value) (Value, bool) {
+	r := reflect.ValueOf(v)
+	switch r.Kind() {
+	case reflect.Bool:
+		return r.Bool(), true
+	case reflect.Int, reflect.Int8, reflect.Int16, reflect.Int32, reflect.Int64:
+		return r.Int(), true
+	case reflect.Uint, reflect.Uint8, reflect.Uint16, reflect.Uint32, reflect.Uint64, reflect.Uintptr:
+		return r.Uint(), true
+	case reflect.Float32:
+		return float32(r.Float()), true
+	case reflect.Float64:
+		return r.Float(), true
+	case reflect.String:
+		return r.String(), true
+	}
+	return nil, false
 }
 
 // nilReceiver reports whether v is a nil pointer to a type that declares the
@@ -209,6 +235,10 @@ func CoerceNumber(v Value) float64 {
 		if vc {
 			return 1
 		}
+	default:
+		if u, ok := underlying(v); ok {
+			return CoerceNumber(u)
+		}
 	}
 	return 0
 }
@@ -255,7 +285,10 @@ func CoerceString(v Value) string {
 		if vc == true {
 			return "1" // Twig compatibility (aka PHP compatibility)
 		}
-
+	default:
+		if u, ok := underlying(v); ok {
+			return CoerceString(u)
+		}
 	}
 	return ""
 }
